@@ -10,5 +10,5 @@ Theorem verify_reencode_sound_except_known :
   verify_reencode (raw_sig c r s) ks = Ok (der_sig (Z.to_N r) (Z.to_N s)) /\
   (in_window cv (zlen (der_sig (Z.to_N r) (Z.to_N s))) = true ->
    verify_reencode (der_sig (Z.to_N r) (Z.to_N s)) ks = Ok (der_sig (Z.to_N r) (Z.to_N s))).
-Proof. intros r s cv c ks HC Hr Hs. split; [apply (verify_reencode_raw r s cv c ks HC Hr Hs)|apply (verify_reencode_der _ _ cv c ks HC)]. Qed.
+Proof. exact verify_reencode_sound_lemma. Qed.
 Print Assumptions verify_reencode_sound_except_known.
